@@ -603,6 +603,65 @@ def equal_but_different_args(acc):
                         shutil.rmtree(tmp, ignore_errors=True)
 
 
+def undeserialisable_entries(acc):
+    """'any anomaly evicts and misses': an AUTHENTIC disk entry (payload and signature intact) whose unpickling fails in the reading
+    process - the value's class was removed / its module is gone / its __setstate__ raises - is a miss: no exception, the function
+    runs again, the result equals the uncached run.  Same instance and a re-opened cache; both runners."""
+    import sys
+    import tempfile
+    import types
+
+    from hypergraph.cache import DiskCache
+
+    for runner in ("sync", "async"):
+        for failure in ("class-removed", "module-removed", "setstate-raises"):
+            for reopen in (False, True):
+                mod = types.ModuleType("mc_c09_values")
+                exec("class Val:\n    def __init__(self, v):\n        self.v = v\n    def __eq__(self, o):\n        return type(o).__name__ == 'Val' and o.v == self.v\n    def __hash__(self):\n        return hash(self.v)\n    def __repr__(self):\n        return 'Val(%r)' % (self.v,)\n", mod.__dict__)
+                sys.modules["mc_c09_values"] = mod
+                mod.Val.__module__ = "mc_c09_values"
+                h = H()
+                h.mod = mod
+                prog = T.set_async(T.prog([T.fn("mkv", ["x"], ["val"], cache=True, behav={"py": "H.mod.Val(x)"}), T.fn("usev", ["val"], ["u"], behav={"py": "('use', val.v)"})]), runner == "async")
+                g = build(prog, h)
+                tmp = tempfile.mkdtemp(prefix="c09u_", dir="/dev/shm" if os.path.isdir("/dev/shm") else None)
+                w = {"undeserialisable_entries": True}
+                dc = DiskCache(tmp)
+                try:
+                    x1 = execute(prog, {"x": 7}, runner=runner, h=h, graph=g, cache=dc)
+                    ref = None if x1.result is None else repr(sorted(x1.result.values.items(), key=repr))
+                    # break deserialisation of what was stored (new instances can still be made by the node function)
+                    keep = mod.Val
+                    if failure == "class-removed":
+                        del mod.Val
+                        h.mod = types.SimpleNamespace(Val=keep)
+                    elif failure == "module-removed":
+                        del sys.modules["mc_c09_values"]
+                    else:
+                        def boom(self, state):
+                            raise RuntimeError("cannot restore")
+
+                        keep.__setstate__ = boom
+                    if reopen:
+                        dc._cache.close()
+                        dc = DiskCache(tmp)
+                    n0 = sum(1 for c in h.calls if c.nid == "mkv")
+                    x2 = execute(prog, {"x": 7}, runner=runner, h=h, graph=g, cache=dc)
+                    acc.evaluations += 2
+                    acc.key(("undeserialisable", runner, failure, reopen))
+                    got = None if x2.result is None else repr(sorted(x2.result.values.items(), key=repr))
+                    ran = sum(1 for c in h.calls if c.nid == "mkv") - n0
+                    if x2.exc is not None or x2.status != "completed" or got != ref or ran != 1:
+                        acc.violation({"symptom": "undeserialisable-entry-not-a-miss", "failure": failure}, w, f"authentic disk entry whose unpickling fails ({failure}, {'re-opened' if reopen else 'same'} cache, {runner}): status {x2.status} exc={x2.exc!r} error={getattr(x2.result, 'error', None)!r}, function re-ran {ran}x (expected a clean miss: completed, re-run once, same result)")
+                finally:
+                    sys.modules.pop("mc_c09_values", None)
+                    try:
+                        dc._cache.close()
+                    except Exception:  # noqa: BLE001
+                        pass
+                    shutil.rmtree(tmp, ignore_errors=True)
+
+
 def shards(tier, seed):
     out = []
     for pi, (name, progs, variants) in enumerate(programs()):
@@ -612,6 +671,7 @@ def shards(tier, seed):
     out.append((tier, seed, "derive-after-run", 0))
     out.append((tier, seed, "equal-args", 0))
     out.append((tier, seed, "cached-interrupt", 0))
+    out.append((tier, seed, "undeserialisable", 0))
     return out
 
 
@@ -623,6 +683,9 @@ def run_shard(shard):
         return acc
     if pi == "equal-args":
         equal_but_different_args(acc)
+        return acc
+    if pi == "undeserialisable":
+        undeserialisable_entries(acc)
         return acc
     if pi == "cached-interrupt":
         # cache=True on an interrupt (with and without an emit signal): every call history on one cache equals the uncached runner
@@ -672,6 +735,9 @@ def coverage_extra(acc, tier, seed):
 
 def replay(rep):
     acc = Acc()
+    if rep.get("undeserialisable_entries"):
+        undeserialisable_entries(acc)
+        return [v["message"] for v in acc.violations.values()]
     if rep.get("cached_interrupt"):
         from . import c14
 
